@@ -26,7 +26,7 @@ sensitivity:  s/let v = if d100 { v \\/ 100.0 } else { v };/let v = if d100 { v 
 LEVEL = "model_checking"
 
 QUICK = ["q_kinds", "q_pos", "q_ign", "q_pre"]
-THOROUGH = ["t_kinds", "t_pos", "t_ign", "t_pre", "t_big"]
+THOROUGH = ["t_kinds", "t_pos", "t_span", "t_ign", "t_pre", "t_big"]
 
 
 def run(ctx):
